@@ -276,12 +276,51 @@ SERVE_TRUST = COMMON_TRUST + [
     "Kani 0.68 + CBMC 6.11 for cas_decide (complete, loop-free, arbitrary 32-byte hashes) on the unedited wire.rs",
     "fs2 flock gives mutual exclusion across server processes; the standard argument 'atomic sections under one lock + CAS at lock acquisition ==> linearizable' is stated, not mechanised",
 ]
-def _serve(pid, clauses, only_re, not_decided):
-    return dict(level="proof", units=[], kani=[dict(harness="c03_cas_decide_is_equality", repo_fn="src/bin/copia/wire.rs cas_decide",
+SERVE_TRUST += [
+    "ghost hub world (units/lib/serve_world.rs, ASSUMED): files + confinement root + commit lock + process-private names + verified-staging map. rename is atomic; create/write are NON-atomic and allowed only on a process-private staging name; rename/unlink of a live path require the commit lock; a rename source must be private, flushed and hash-verified (mark_verified is provable only if H(bytes) == the declared hash); taking the lock havocs every non-private file (the other processes ran); current_hash describes the file only under the lock; a descriptor keeps seeing the version it was opened on",
+    "std::path component grammar (ASSUMED, validated by the session twin): comps_of / bad_comp / is_abs / rel_ok; join = concatenation; private_name(<dst> + '.' + pid + '.' + seq + '.copia-tmp') because pid is unique among live processes and seq is a per-process counter",
+    "ciborium by contract: cbor_parse is a total function of the frame bytes (cbor_from / cbor_into shims); bytes_to_hash, short_hash, meta::fingerprint_path, list_fingerprints by contract",
+    "R6: with_commit_lock is inlined (β-reduction of the closure argument, side condition: no `?`/return inside the closure) from its current body on every run; R4: none (serve is synchronous); R11: Box<dyn Error> => opaque VErr",
+    "DOMAIN ASSUMPTION: a decoded request never names a reserved staging path (in_domain, the properties' own exclusion of 'reserved staging names')",
+    "byte-string constant MAGIC == \"COPIA1\\n\" and MAX_FRAME == 2^20 are read from wire.rs by //@item (the const text is the repository's)",
+]
+def _serve(pid, clauses, only_re, not_decided, slice_, ignore=None):
+    u = dict(template="units/serve.rs", slice=slice_)
+    if ignore:
+        u["ignore_clauses"] = ignore
+    return dict(level="proof", units=[u], kani=[dict(harness="c03_cas_decide_is_equality", repo_fn="src/bin/copia/wire.rs cas_decide",
                                                       desc="cas_decide(current, expected) == Commit <=> current == expected (None = absent), arbitrary hashes")] if pid == "C03" else [],
                 twins=[dict(SERVE_TWIN, only_re=only_re)], fallback_searches=["serve"], fallback_only_re=only_re, clauses=clauses,
-                trusted=SERVE_TRUST, assumptions=["served tree without symlinks leading outside"], not_decided=not_decided)
-PROPS["C03"] = _serve("C03", {"cas_decide": "Commit <=> current == expected (Kani, complete)"}, r"\(C03", ["interleavings themselves are not explored by a verifier; the session twin forces the named schedules only"])
-PROPS["C10"] = _serve("C10", {}, r"\(C10", ["kill points inside the kernel"])
-PROPS["C11"] = _serve("C11", {}, r"\(C11", ["std::path parsing itself (assumed component grammar)"])
-PROPS["C12"] = _serve("C12", {}, r"\(C12|\(C11/C12", ["ciborium internals; behaviour under a real rlimit"])
+                trusted=SERVE_TRUST, assumptions=["served tree without symlinks leading outside", "request paths are not reserved staging names (*.copia-tmp)"], not_decided=not_decided)
+_NOT_C03 = [r"safe_join_none\(pv\(root\), path@\) ==>", r"^\s*inside\(", r"stream_of"]
+_NOT_C10 = [r"safe_join_none\(pv\(root\), path@\) ==>", r"^\s*inside\(", r"stream_of", r"hv\(expected\) == cur_of", r"final\(fs\)\.files == l\.files"]
+_NOT_C11 = [r"cur_of", r"verified", r"synced", r"stream_of\(&\*final\(r\)\) ==", r"H\("]
+_NOT_C12 = [r"cur_of", r"verified", r"synced", r"\.lock\b", r"private"]
+PROPS["C03"] = _serve("C03", {
+    "cas_decide": "Commit <=> current == expected (Verus on the extracted text AND Kani on the unedited file, complete)",
+    "handle_put": "Ok and path accepted ==> either no live path changed, or there is the state L seen on acquiring the commit lock with: expected != hash-of-live(L) ==> the live file is exactly L's (stale CAS never touches it); any new live content has the declared hash. Every rename/unlink of a live path happens while this process holds the lock (vfs_rename / vfs_remove_file preconditions); the comparison reads the live hash under the lock (current_hash contract)",
+    "handle_delete": "Ok ==> exists the locked state L with: expected == hash-of-live(L) ==> files == L minus the path (or L if unlink failed); otherwise files == L",
+    "tmp_of": "the staging name is process-private (pid + per-process sequence) and ends in .copia-tmp",
+}, r"\(C03", ["interleavings themselves are not explored by a verifier: the proof is per-process (each critical section is one atomic CAS against the locked state, everything outside the lock touches only private names); the step from that to linearizability is the standard lock argument, stated in DESIGN.md, not mechanised; the session twin forces the named schedules only",
+               "conflict-copy retrievability across later requests (a second stale Put with the same content hash reuses the conflict name: same bytes) is argued, not mechanised"],
+    ["cas_decide", "tmp_of", "handle_put", "handle_delete"], {"handle_put": _NOT_C03, "handle_delete": _NOT_C03})
+PROPS["C10"] = _serve("C10", {
+    "handle_put": "non-atomic create/write only ever target the process-private staging name (vfs::File::create / write_all preconditions); the only way bytes reach a non-staging path is vfs_rename, whose precondition demands a private, FLUSHED, HASH-VERIFIED source (mark_verified is provable only when H(bytes) == declared hash); a hash mismatch or short content leaves every live path unchanged (live_same)",
+    "handle_get": "the Meta reply announces len == |bytes| and blake3 == H(bytes) of ONE opened version, and exactly those bytes are streamed (single descriptor, H11 fix)",
+    "tmp_of": "staging names are private to (process, request): no two writers share one",
+}, r"\(C10", ["kill points: the crash argument is 'every prefix of the effect log keeps the invariant' - effects on live paths are renames only (atomic); this is implied by the preconditions but the prefix quantifier itself is not a Verus obligation", "kernel-level durability"],
+    ["tmp_of", "handle_put", "handle_get"], {"handle_put": _NOT_C10})
+PROPS["C11"] = _serve("C11", {
+    "safe_join": "None <=> the path is absolute or has a .., root or prefix component; Some(p) ==> p == root.join(rel) and inside(root, p)",
+    "handle_put / handle_delete / handle_get": "every path handed to any file-system primitive is inside(root, .) (precondition of every vfs_* shim); a refused path leaves files and effect log unchanged; a refused Put drains min(len, available) content bytes",
+    "serve": "lockdir == root/.copia is inside root; the handlers' preconditions are established for every decoded request",
+}, r"\(C11", ["std::path parsing itself (assumed component grammar, validated by the twin)", "symlinks (assumed absent by the property)"],
+    ["safe_join", "tmp_of", "handle_put", "handle_delete", "handle_get", "serve"], {"handle_put": _NOT_C11, "handle_delete": _NOT_C11, "handle_get": _NOT_C11})
+PROPS["C12"] = _serve("C12", {
+    "read_magic": "Ok <=> the first 7 bytes are COPIA1\\n; consumes exactly those",
+    "read_frame": "never allocates before checking len <= MAX_FRAME (2^20): the buffer passed to read_exact has length len <= 2^20; clean EOF at a frame boundary => Ok(None); consumes exactly 4 + len bytes on success",
+    "write_frame": "emits BE32(len) ++ cbor(msg), rejects len > MAX_FRAME",
+    "serve": "no panic/overflow/out-of-bounds (every callee precondition holds for arbitrary input); with a bad prologue or before the first well-formed frame, files are unchanged and the effect log holds at most the two start-up Mkdirs; terminates on EOF (loop exits when read_frame returns None/Err)",
+    "handle_put": "refused Put drains its content so the stream stays in step",
+}, r"\(C12|\(C11/C12", ["ciborium internals (allocation on hostile CBOR inside a <= 1 MiB frame) - by contract; behaviour under a real rlimit is exercised by the twin only", "'later valid requests get the same replies as in a fresh session' is a two-run statement: decided only as 'the stream position after an error reply is the frame boundary' (handle_put drain clause + read_frame consumption)"],
+    ["read_magic", "read_frame", "write_frame", "serve", "handle_put"], {"handle_put": _NOT_C12})
